@@ -39,12 +39,15 @@ TSpec == TInit /\ [][TNext]_tvars
 
 \* every observed step is a step of the protocol
 StepsLegal == stepok
-\* C11 on the run's own observations: the body ran at most once and every call got its outputs
+\* C11 on the run's own observations, whatever schedule the code followed: the body ran at most once and every
+\* call received the outputs of that execution.  This is the verdict.
 RunOK == fin.ev = "end" =>
    /\ fin.execs <= 1
-   /\ fin.feasible => fin.execs = execs      \* (an abandoned schedule runs to completion unobserved)
    /\ \A i \in DOMAIN fin.results : fin.results[i] = fin.first
-   \* a schedule the specification allows can be followed by the code; one it forbids (adversarial) cannot
+\* conformance with the locked protocol (model drift if violated, not a verdict): a schedule the specification
+\* allows can be followed, one only the lock-free protocol allows cannot, the step counts agree
+ProtocolOK == fin.ev = "end" =>
+   /\ fin.feasible => fin.execs = execs
    /\ fin.mode = "forced" => fin.feasible
    /\ fin.mode = "adversarial" => ~fin.feasible
 Accepted == TLCGet("stats").diameter - 1 = Len(Trace)
